@@ -1,6 +1,7 @@
 From Coq Require Import List Arith.
 Import ListNotations.
 From UJ Require Import Engine.Engine Base.Graph Cache.Prune Cache.Transform Cache.TransformProofs.
+From UJ Require Import Cache.EndToEnd.
 
 (** Setting ([tctx]): a well-formed plan [p], fresh ids from [c] on, registry entries [es] on distinct
     plan nodes; [q = add_all p c es] is the plan after [_add_value_store] of every entry and
@@ -89,3 +90,18 @@ Theorem C09_output_is_read_node :
   In (read_id ce) (pnodes (fst (physical p c es (Some (enode e))))).
 Proof. exact TransformProofs.C09_output_is_read_node. Qed.
 Print Assumptions C09_output_is_read_node.
+
+(** End to end: in every run of the executed physical plan, under every schedule, a call that consumes a
+    rebuilt stored value starts only after that value was computed, written to its store and read back. *)
+Theorem C09_run_order :
+  forall (p : pgraph) (c0 : nat) (es : list entry) (output : option nat)
+         (e : entry) (ce : nat) (sn : nat) (k : ekey) (c : cfg) (s : st),
+  tctx p c0 es -> In (e, ce) (entry_ids c0 es) -> estale e = true -> esource e = false ->
+  In (mke (enode e) sn k) (pedges p) -> k <> KDep ->
+  let r := fst (physical p c0 es output) in
+  In sn (pnodes r) -> pkind r sn = KCall -> pkind r (enode e) = KCall ->
+  g c = to_graph (executed r) -> 1 <= workers c -> reachable c s ->
+  forall h1 h2, hist s = h1 ++ EStart sn :: h2 ->
+    In (EOk (enode e)) h2 /\ In (EOk (write_id ce)) h2 /\ In (EOk (read_id ce)) h2.
+Proof. exact physical_run_order. Qed.
+Print Assumptions C09_run_order.
